@@ -849,15 +849,9 @@ func c20(c *Ctx) {
 		for _, cl := range callsIn(eh) {
 			if strings.HasPrefix(calleeName(cl), "dynamic:") && strings.HasSuffix(calleeName(cl), ".f") {
 				nHook++
-				ok := false
-				for _, cd := range condsFor(cl.Block()) {
-					cd = normCond(cd)
-					if b := asBinOp(cd.V, token.EQL); b != nil && cd.Sense && strings.HasSuffix(pathOf(b.X), ".Type") {
-						if k, isC := b.Y.(*ssa.Const); isC && constName(k) == "RuntimeDone" {
-							ok = true
-						}
-					}
-				}
+				isType := func(v ssa.Value) bool { return strings.HasSuffix(pathOf(v), ".Type") }
+				isDone := func(v ssa.Value) bool { k, isC := v.(*ssa.Const); return isC && constName(k) == "RuntimeDone" }
+				ok := cmpHolds(factsAt(cl.Block()), isType, isDone, token.EQL)
 				r.Check("telemetry:hook-on-runtimeDone", ok, cl.Pos(), "the hook runs exactly for records of type RuntimeDone")
 				r.Check("telemetry:hook-per-record", reachableFrom(cl.Block())[cl.Block()], cl.Pos(), "the hook is inside the loop over the telemetry batch")
 				_, isCall := cl.(*ssa.Call)
